@@ -1015,7 +1015,10 @@ class IMAPClientCommand:
                 self._p_list_mailbox_pattern
             )
         else:
-            self.list_mailbox = self._p_list_mailbox()
+            # INBOX is case-insensitive (RFC 3501 Section 5.1) and stored as
+            # `inbox`, so normalize it like we do for a list of patterns.
+            #
+            self.list_mailbox = self._p_list_mailbox_pattern()
 
         # Optional RETURN options (RFC 5258 Section 3, RFC 5819)
         #
